@@ -11,13 +11,14 @@ mro merge  L            ->  ok 1,2,3 | reject          (pydoctor  mro._merge)
 mro pmerge L            ->  ok 1,2,3 | reject          (CPython   pmerge)
 mro pd H                ->  answers for classes 1..n-1 joined by `|`:  1,2 or reject   (mro.mro)
 mro py H                ->  same, CPython `mro_implementation` with the implicit `object` (= 0)
-mro full H EXT OWN DOC  ->  per class 1..n-1 not in EXT:
+mro full H SUB EXT OWN DOC  ->  per class 1..n-1 not in EXT:
                             <_mro>:<number of 'mro' reports>:<find('m') owner or ->:<doc source, - (none) or x (class has no m)>
-mro pyfull H OWN DOC    ->  per class 1..n-1: <__mro__ or reject>:<lookup owner or ->:<doc source, - (none) or x (class has no m)>:<inspect.getdoc source>
+mro pyfull H SUB EXT OWN DOC ->  per class 1..n-1: <__mro__ or reject>:<lookup owner or ->:<doc source, - (none) or x (class has no m)>:<inspect.getdoc source>
 ```
-mro second SC RAW INIT RES TRIG -> `_finalbaseobjects` per class (N = not set; 0 = None, k+1 = class k) after
+mro second SC RAW INIT EXP RES TRIG -> `_finalbaseobjects` per class (N = not set; 0 = None, k+1 = class k) after
                             `_init_mro` ran for the classes TRIG: SC scope per class, RAW base names per class,
-                            INIT `_initialbaseobjects` (0 = None), RES triples scope,name,class
+                            INIT `_initialbaseobjects` (0 = None), EXP what `_initialbases` denote (0 = no class), RES triples scope,name,class
+SUB = per class, per base: 1 if the base is written as a subscript (`A[T]`), else 0;
 EXT = classes that are external (unresolved string bases such as `typing.Generic`), OWN = classes
 defining member `m`, DOC = classes whose `m` has a docstring. -/
 namespace Mro
@@ -34,6 +35,10 @@ def showOpt : Option Nat → String
   | none => "-"
 
 def basesOf (h : List (List Nat)) (c : Nat) : List Nat := h.getD c []
+
+/-- raw bases of class `c`: the base and whether it is written as a subscript (SUB: 0/1 lists shaped like H) -/
+def rawOf (h sb : List (List Nat)) (c : Nat) : List (Nat × Bool) :=
+  List.zipWith (fun b f => (b, f != 0)) (h.getD c []) (sb.getD c [])
 
 def classesOf (h : List (List Nat)) : List Nat := (List.range h.length).drop 1
 
@@ -56,22 +61,22 @@ def handle (args : List String) : String :=
     | some hs =>
       "|".intercalate ((classesOf hs).map fun c => showRes (PyMro.mro (PyMro.withObject (basesOf hs)) c))
     | none => "bad-op"
-  | ["full", h, e, o, d] =>
-    match parseLists h, Proto.natList e, Proto.natList o, Proto.natList d with
-    | some hs, some es, some os, some ds =>
-      let bases := basesOf hs
+  | ["full", h, sb, e, o, d] =>
+    match parseLists h, parseLists sb, Proto.natList e, Proto.natList o, Proto.natList d with
+    | some hs, some sbs, some es, some os, some ds =>
       let ext := fun c => es.contains c
+      let bases := fun c => localBases ext (rawOf hs sbs c)
       let owns := fun c (_ : Nat) => os.contains c
       let hasDoc := fun c (_ : Nat) => ds.contains c
       "|".intercalate (((classesOf hs).filter (fun c => !ext c)).map fun c =>
         let r := initMro bases ext c
         Proto.showNatList r.1 ++ ":" ++ toString r.2.length ++ ":" ++ showOpt (find bases ext owns c 0)
           ++ ":" ++ (if owns c 0 then showOpt (getDocstring bases ext owns hasDoc c 0) else "x"))
-    | _, _, _, _ => "bad-op"
-  | ["pyfull", h, o, d] =>
-    match parseLists h, Proto.natList o, Proto.natList d with
-    | some hs, some os, some ds =>
-      let bases := PyMro.withObject (basesOf hs)
+    | _, _, _, _, _ => "bad-op"
+  | ["pyfull", h, sb, e, o, d] =>
+    match parseLists h, parseLists sb, Proto.natList e, Proto.natList o, Proto.natList d with
+    | some hs, some sbs, some es, some os, some ds =>
+      let bases := PyMro.withObject (fun c => PyMro.mroEntries (fun b => es.contains b) (rawOf hs sbs c))
       let owns := fun c (_ : Nat) => os.contains c
       let hasDoc := fun c (_ : Nat) => ds.contains c
       "|".intercalate ((classesOf hs).map fun c =>
@@ -80,21 +85,22 @@ def handle (args : List String) : String :=
         | some l => Proto.showNatList l ++ ":" ++ showOpt (PyMro.lookup bases owns c 0)
           ++ ":" ++ (if owns c 0 then showOpt (PyMro.docSource bases owns hasDoc c 0) else "x")
           ++ ":" ++ (if owns c 0 then showOpt (PyMro.inspectGetdoc bases owns hasDoc c 0) else "x"))
-    | _, _, _ => "bad-op"
-  | ["second", sc, raw, ini, res, trig] =>
-    match Proto.natList sc, parseLists raw, parseLists ini, parseLists res, Proto.natList trig with
-    | some scs, some raws, some inis, some ress, some trigs =>
+    | _, _, _, _, _ => "bad-op"
+  | ["second", sc, raw, ini, ex, res, trig] =>
+    match Proto.natList sc, parseLists raw, parseLists ini, parseLists ex, parseLists res, Proto.natList trig with
+    | some scs, some raws, some inis, some exs, some ress, some trigs =>
       let d : Decls := {
         scope := fun o => scs.getD o 0
         raw := fun o => raws.getD o []
         initial := fun o => (inis.getD o []).map fun v => if v = 0 then none else some (v - 1)
+        expanded := fun o => (exs.getD o []).map fun v => if v = 0 then none else some (v - 1)
         resolve := fun s n => (ress.find? fun t => t.length == 3 && t.getD 0 0 == s && t.getD 1 0 == n).map (·.getD 2 0) }
       let c := secondPass d (fun _ o => d.scope o) (scs.length + 1) trigs
       "|".intercalate ((List.range scs.length).map fun o =>
         match c.get o with
         | none => "N"
         | some fb => Proto.showNatList (fb.map fun b => match b with | some k => k + 1 | none => 0))
-    | _, _, _, _, _ => "bad-op"
+    | _, _, _, _, _, _ => "bad-op"
   | _ => "bad-op"
 
 end Mro
